@@ -1461,6 +1461,99 @@ theorem leaves_ok {lower : Bytes → Bytes} {cv : Conv} {env : Env V T D S W} {r
 
 end leafref
 
+/-! ### small facts the property theorems use -/
+
+section misc
+
+/-- a leaf answer whose id set is the set of its ranked ids back-fills nothing -/
+theorem backfill_ranked_only (set : List Nat) (res : List (C06.Res S)) (h : ∀ n ∈ set, n ∈ res.map (·.id)) :
+    C06.backfill ⟨set, res⟩ = res.map (fun x => (⟨x.id, some x.hybrid⟩ : C06.Entry S)) := by
+  unfold C06.backfill
+  have : (C06.dedup set).filter (fun id => !(res.any (fun x => x.id == id))) = [] := by
+    rw [List.filter_eq_nil_iff]
+    intro a ha
+    have ha' := (C06.mem_dedup set a).1 ha
+    obtain ⟨x, hx, hxa⟩ := List.mem_map.1 (h a ha')
+    have : res.any (fun y => y.id == a) = true := List.any_eq_true.2 ⟨x, hx, by simp [hxa]⟩
+    simp [this]
+  simp [this, C06.sortAsc]
+
+/-- what the flat store holds, said on the reference map: under node id `i` the vector of the document of the
+live point `i` names, nothing else -/
+theorem flat_store_ref {lower : Bytes → Bytes} {cv : Conv} {st : State} (hI : Inv lower cv st) (env : Env V T D S W)
+    {fx : FlatIx V} (h : FlatInvD env fx (docAt cv st.shard.pts)) (i : C02.Id) (v : V) :
+    (i, v) ∈ fx.store ↔ ∃ u doc, C01.AL.get st.shard.pts.nI i.toNat = some u ∧
+      C01.AL.get (C01.abs st.shard) u = some doc ∧ vecAt env fx.path (idxData cv doc) = some v := by
+  obtain ⟨hn, hg⟩ := h
+  have hp := hI.store.pts
+  constructor
+  · intro hm
+    have h1 := C01.AL.get_of_mem hn hm
+    rw [hg] at h1
+    cases hd : C01.AL.get st.shard.pts.nD i.toNat with
+    | none =>
+      have : docAt cv st.shard.pts i = none := by simp [docAt, hd]
+      rw [this] at h1; simp [vecAt, C02.getProp] at h1
+    | some d =>
+      have := hp.nD_live i.toNat (by rw [hd]; rfl)
+      cases hl : C01.AL.get st.shard.pts.nI i.toNat with
+      | none => rw [hl] at this; cases this
+      | some u => exact ⟨u, _, rfl, abs_get_live hp hl, h1⟩
+  · rintro ⟨u, doc, hl, hdoc, hv⟩
+    have h2 : C01.AL.get (C01.abs st.shard) u = some (C01.AL.get st.shard.pts.nD i.toNat) := abs_get_live hp hl
+    rw [h2] at hdoc
+    have := Option.some.inj hdoc
+    subst this
+    apply C01.AL.mem_of_get
+    rw [hg]; exact hv
+
+variable [LinearOrder D]
+
+/-- an exact answer has `min limit (number of candidates)` rows -/
+theorem IsFlatAnswer.length_eq {lower : Bytes → Bytes} {cv : Conv} {env : Env V T D S W} {schema : List (List String × C02.Kind)}
+    {coll : C01.Coll} {path : List String} {qv : V} {limit : Nat} {f : Option C02.Query} {A : List (Uuid × D)}
+    (h : IsFlatAnswer lower cv env schema coll path qv limit f A) (cs : List Uuid) (hcn : cs.Nodup)
+    (hcs : ∀ u, u ∈ cs ↔ ∃ d, FlatCand lower cv env schema coll path qv f u d) :
+    A.length = min limit cs.length := by
+  have hsub : ∀ u ∈ A.map (·.1), u ∈ cs := by
+    intro u hu
+    obtain ⟨a, ha, rfl⟩ := List.mem_map.1 hu
+    exact (hcs a.1).2 ⟨a.2, h.cand a ha⟩
+  have hle : A.length ≤ cs.length := by
+    have := length_le_of_nodup_subset (A.map (·.1)) cs h.nodup hsub
+    simpa using this
+  by_cases hall : ∀ u ∈ cs, u ∈ A.map (·.1)
+  · have hperm : (A.map (·.1)).Perm cs := (List.perm_ext_iff_of_nodup h.nodup hcn).2 (fun u => ⟨hsub u, hall u⟩)
+    have := hperm.length_eq
+    simp only [List.length_map] at this
+    have := h.short
+    omega
+  · have : ∃ u, u ∈ cs ∧ u ∉ A.map (·.1) := by
+      apply Classical.byContradiction
+      intro hn
+      apply hall
+      intro u hu
+      apply Classical.byContradiction
+      intro hnu
+      exact hn ⟨u, hu, hnu⟩
+    obtain ⟨u, hu, hnu⟩ := this
+    obtain ⟨d, hd⟩ := (hcs u).1 hu
+    have := (h.complete u d hd hnu).1
+    omega
+
+/-- no candidate strictly closer than a returned row is left out -/
+theorem IsFlatAnswer.no_closer_left_out {lower : Bytes → Bytes} {cv : Conv} {env : Env V T D S W}
+    {schema : List (List String × C02.Kind)} {coll : C01.Coll} {path : List String} {qv : V} {limit : Nat}
+    {f : Option C02.Query} {A : List (Uuid × D)}
+    (h : IsFlatAnswer lower cv env schema coll path qv limit f A) (u : Uuid) (d : D)
+    (hc : FlatCand lower cv env schema coll path qv f u d) (a : Uuid × D) (ha : a ∈ A) (hlt : d < a.2) :
+    u ∈ A.map (·.1) := by
+  apply Classical.byContradiction
+  intro hnot
+  exact absurd ((h.complete u d hc hnot).2 a ha) (not_le.2 hlt)
+
+end misc
+
 end read
 
 end Sema.Compose
